@@ -318,4 +318,103 @@ theorem kf4_witness_costs :
     arrCost kf4Pen kf4Lws kf4Frs 0 [(0, 3), (3, 4)] = 56 ∧
     arrCost kf4Pen kf4Lws kf4Frs 0 [(0, 1), (1, 2), (2, 4)] = 52 := by decide +kernel
 
+/-! ### every list outside the KF-4 class: the exact dichotomy -/
+
+/-- two line-width lists that give every line the same width -/
+def LwsEquiv (l1 l2 : List Int) : Prop := ∀ k, l1.getD k (defaultLw l1) = l2.getD k (defaultLw l2)
+
+theorem lineCost_congr (pen : Penalties) (l1 l2 : List Int) (h : LwsEquiv l1 l2) :
+    lineCost pen l1 = lineCost pen l2 := by
+  funext n Wi Wj last Di ln i j
+  unfold lineCost
+  rw [h ln]
+
+theorem costClosure_congr (pen : Penalties) (l1 l2 : List Int) (h : LwsEquiv l1 l2) (frs : List IFrag) (W : List Int) :
+    costClosure pen l1 frs W = costClosure pen l2 frs W := by
+  funext minima i j
+  unfold costClosure
+  rw [lineCost_congr pen l1 l2 h]
+
+theorem wrapOptimalFit_congr {β : Type} (m : β → IFrag) (pen : Penalties) (frs : List β) (l1 l2 : List Int)
+    (h : LwsEquiv l1 l2) : wrapOptimalFit m pen frs l1 = wrapOptimalFit m pen frs l2 := by
+  unfold wrapOptimalFit
+  simp only [costClosure_congr pen l1 l2 h]
+
+theorem arrCost_congr (pen : Penalties) (l1 l2 : List Int) (h : LwsEquiv l1 l2) (frs : List IFrag)
+    (k : Nat) (segs : List (Nat × Nat)) : arrCost pen l1 frs k segs = arrCost pen l2 frs k segs := by
+  induction segs generalizing k with
+  | nil => rfl
+  | cons s rest ih =>
+    obtain ⟨a, b⟩ := s
+    simp only [arrCost]
+    rw [lineCost_congr pen l1 l2 h, ih]
+
+/-- the complement of the KF-4 class: from the third entry on every entry equals the second -/
+def NotKf4 (lws : List Int) : Prop := ∀ i, 2 ≤ i → i < lws.length → lws.getD i 0 = lws.getD 1 0
+
+-- @audit TW.C03.lwsEquiv_take2
+theorem lwsEquiv_take2 (lws : List Int) (h : NotKf4 lws) : LwsEquiv lws (lws.take 2) := by
+  match lws, h with
+  | [], _ => intro k; rfl
+  | [a], _ => intro k; rfl
+  | a :: b :: rest, h =>
+    have hall : ∀ x ∈ rest, x = b := by
+      intro x hx
+      obtain ⟨i, hi, rfl⟩ := List.getElem_of_mem hx
+      have := h (i + 2) (by omega) (by simp; omega)
+      simpa [List.getD_eq_getElem?_getD, hi] using this
+    have hlast : defaultLw (a :: b :: rest) = b := by
+      unfold defaultLw
+      cases hr : rest.getLast? with
+      | none =>
+        have : rest = [] := List.getLast?_eq_none_iff.mp hr
+        subst this; rfl
+      | some x =>
+        have hx : x ∈ rest := List.mem_of_getLast? hr
+        have hne : rest ≠ [] := List.ne_nil_of_mem hx
+        have e : (a :: b :: rest).getLast? = rest.getLast? := by
+          rw [List.getLast?_cons_cons, List.getLast?_cons_of_ne_nil hne]
+        rw [e, hr]; exact hall x hx
+    intro k
+    have hd2 : defaultLw ((a :: b :: rest).take 2) = b := rfl
+    rw [hlast, hd2]
+    match k with
+    | 0 => rfl
+    | 1 => rfl
+    | k + 2 =>
+      simp only [List.take, List.getD_eq_getElem?_getD, List.getElem?_cons_succ]
+      cases hk : rest[k]? with
+      | none => simp
+      | some x => simp; exact hall x (List.mem_of_getElem? hk)
+
+/-- **optimal-fit returns a minimum-cost arrangement for every line-width list outside the KF-4
+    class** — any number of entries, as long as the width does not change again after the second
+    line (`NotKf4`; such a list gives every line the width its first two entries give it). Together
+    with `kf4_witness_costs` this is an exact dichotomy: the property holds on the complement of the
+    recorded finding class and fails inside it. -/
+-- @audit TW.C03.optimal_own_ext
+theorem optimal_own_ext (pen : Penalties) (lws : List Int) (hk : NotKf4 lws) (frs : List IFrag)
+    (hn : frs ≠ []) (hf : FragHyp frs)
+    (p : List (List IFrag)) (hflat : p.flatten = frs) (hne : ∀ l ∈ p, l ≠ []) :
+    ∃ segs, (wrapOptimalFit (fun f => f) pen frs lws).1 =
+        .ok (segs.map fun q => (frs.drop q.1).take (q.2 - q.1)) ∧
+      arrCost pen lws frs 0 segs ≤ arrCost pen lws frs 0 (segsOf 0 p) := by
+  have he := lwsEquiv_take2 lws hk
+  obtain ⟨segs, h1, h2⟩ := optimal_own pen (lws.take 2) (by simp [List.length_take]) frs hn hf p hflat hne
+  refine ⟨segs, ?_, ?_⟩
+  · rw [wrapOptimalFit_congr _ pen frs lws (lws.take 2) he]; exact h1
+  · rw [arrCost_congr pen lws (lws.take 2) he, arrCost_congr pen lws (lws.take 2) he]; exact h2
+
+/-- the witness of KF-4 is outside `NotKf4` (so the dichotomy is not vacuous on either side) -/
+example : ¬ NotKf4 kf4Lws := by
+  intro h
+  have := h 2 (by decide) (by decide)
+  simp [kf4Lws] at this
+
+example : NotKf4 [30, 20, 20, 20] := by
+  intro i h2 hlt
+  simp at hlt
+  have : i = 2 ∨ i = 3 := by omega
+  rcases this with rfl | rfl <;> rfl
+
 end TW.C03
